@@ -439,6 +439,34 @@ def check_rsa_pss_type(chk, prog, env, model, rulename='C08.rsa-pss-type'):
     chk.rule(rulename, 'RSA JWK -> key type: RSA-PSS exactly for alg PS256/PS384/PS512 (entered at jwk_process_one)', n, bad, floor=6)
 
 
+CURVE_NAMES = ('P-256', 'P-384', 'P-521', 'secp256k1', 'Ed25519', 'Ed448')
+
+
+def check_curve_field(chk, prog, rulename='C08.curve-field'):
+    """the curve name is copied into a fixed array with strncpy(..., sizeof - 1): the array must hold the longest supported name"""
+    u = prog.unit(c07.UNIT)
+    size = None
+    for rid, rec in u.records.items():
+        if rec.get('name') != 'jwk_item':
+            continue
+        for f in rec.get('inner', ()):
+            if isinstance(f, dict) and f.get('kind') == 'FieldDecl' and f.get('name') == 'curve':
+                import re
+                m = re.search(r'\[(\d+)\]', f.get('type', {}).get('qualType', ''))
+                if m:
+                    size = int(m.group(1))
+    if size is None:
+        raise AnalysisBroken('struct jwk_item has no fixed-size curve field any more')
+    need = max(len(x) for x in CURVE_NAMES) + 1
+    bad = 0
+    if size < need:
+        bad = 1
+        chk.add(Finding(rulename, 'libjwt/jwt-private.h', 'struct jwk_item', 'curve-too-short',
+                        'item->curve has %d bytes; the longest supported curve name needs %d: jwks_item_curve() reports a truncated name'
+                        % (size, need)))
+    chk.rule(rulename, 'item->curve holds every supported curve name untruncated', 1, bad, floor=1)
+
+
 PRIVATE_PARAM = {'process_rsa': 'd', 'process_ec': 'priv', 'process_eddsa': 'priv'}
 
 
@@ -515,6 +543,7 @@ def run(chk, prog, tier):
     chk.guard('key alg attribute', check_key_alg_attribute, chk, prog, env, model)
     chk.guard('rsa-pss type', check_rsa_pss_type, chk, prog, env, model)
     chk.guard('private flag', check_private_flag, chk, prog, env, model)
+    chk.guard('curve field', check_curve_field, chk, prog)
     chk.assumptions += ['equality of key material and the PEM round trip are numeric facts inside OpenSSL and NOT decided']
     return chk.finish(
         'Table and sibling agreement.',
